@@ -12,7 +12,8 @@ pub struct Number {
 }
 impl PartialEq for Number {
     fn eq(&self, other: &Self) -> bool {
-        (self.value - other.value).abs() / self.value.abs() <= f64::EPSILON
+        let (a, b) = (self.value, other.value);
+        a == b || (a - b).abs() <= f64::EPSILON * a.abs().max(b.abs())
     }
 }
 impl Eq for Number {}
